@@ -202,6 +202,8 @@ var titles = []title{
 	{` "a &amp; &ouml;"`, "a &amp; ö"}, {` "t\*t"`, "t*t"}, {"  'sp aced'", "sp aced"}, {` "&#42;x&#x2A;"`, "*x*"},
 }
 
+var multiLineTitles = []title{{" 'two\nlines'", "two\nlines"}, {" \"a\nb c\"", "a\nb c"}, {" (x\n y\nz)", "x\ny\nz"}}
+
 type refDef struct {
 	label string // canonical spelling (lower-case words separated by single spaces)
 	d     dest
@@ -219,6 +221,11 @@ func (g *Gen) newDef() *refDef {
 	}
 	ws = append(ws, fmt.Sprintf("n%d", g.nlabel)) // unique
 	d := &refDef{label: strings.Join(ws, " "), d: dests[g.pick(len(dests))], t: titles[g.pick(len(titles))]}
+	if g.chance(1, 6) {
+		// a title that spans lines (only in definitions, which are rendered line by line)
+		d.t = multiLineTitles[g.pick(len(multiLineTitles))]
+		g.St.add("ref-def:multi-line-title")
+	}
 	g.defs = append(g.defs, d)
 	return d
 }
